@@ -247,6 +247,10 @@ class CallMixin:
                     return self.call_contract(self.reg.contracts[q], None, node, st, ctx)
                 if d in self.reg.classes:
                     return self.construct(d, node, st, ctx)
+                if "." in d:
+                    cv = self.class_const(d.rsplit(".", 1)[0])
+                    if cv is not None:
+                        return self.call_method(cv, d.rsplit(".", 1)[1], node, st, ctx)
                 raise Unsupported("call to unmodelled function %s (line %s)" % (d, node.lineno))
         if isinstance(f, ast.Attribute):
             base = self.ev(f.value, st, ctx)
@@ -545,6 +549,11 @@ class CallMixin:
     def call_method(self, base, name, node, st, ctx):
         k = base.ty.kind
         h = getattr(self, "m_%s_%s" % (k, name), None)
+        if h is None:
+            ext = getattr(self.reg, "methods", {}).get("m_%s_%s" % (k, name))
+            if ext is not None:
+                import functools
+                h = functools.partial(ext, self)
         if h is not None:
             if base.none is not None and not ctx.spec:
                 ctx.exc(base.none, "AttributeError", node)
@@ -565,6 +574,22 @@ class CallMixin:
             d = base.py[1] + "." + name
             raise Unsupported("call to unmodelled function %s (line %s)" % (d, node.lineno))
         raise Unsupported("method %s on %r (line %s)" % (name, base.ty, node.lineno))
+
+    # class-level constant dictionaries read from the real source (e.g. RSMIDecomposer.atomic_symbols)
+    def m_pyconst_get(self, base, node, st, ctx):
+        args = self.args_of(node, st, ctx)
+        table = base.py
+        if not isinstance(table, dict) or not args:
+            raise Unsupported("get on a constant that is not a dictionary")
+        key = args[0]
+        dflt = args[1] if len(args) > 1 else mk_none()
+        res = dflt
+        for k, v in reversed(list(table.items())):
+            if isinstance(k, bool) or not isinstance(k, (int, str)):
+                raise Unsupported("constant table with key %r" % (k,))
+            kv = mk_int(k) if isinstance(k, int) else mk_str(k)
+            res = self.ite(self.eq(key, kv, st), self.const_sv(v, st), res, st)
+        return res
 
     # real numbers (numpy scalars)
     def m_real_item(self, base, node, st, ctx):
